@@ -33,7 +33,8 @@ def main():
                 manifest[os.path.relpath(p, '.')] = hashlib.sha1(f.read()).hexdigest()
     child = None
     if out == 'timeout' and spec.get('fork_on_hang'):
-        child = subprocess.Popen(['sleep', '300']).pid
+        # a helper the test starts for its real work; with 'setsid' in a session / process group of its own (timeout(1), setsid(1), job control)
+        child = subprocess.Popen(['sleep', '300'], start_new_session=(spec.get('fork_on_hang') == 'setsid')).pid
     rec = {'pid': os.getpid(), 'cwd': os.getcwd(), 'manifest': manifest, 'verdict': out, 'child': child,
            'contents': [c.decode('latin-1') for c in contents]}
     with open(spec['log'], 'a') as f:
